@@ -26,7 +26,7 @@ sys.path.insert(0, ROOT)
 
 from harness import tlc as tlcmod  # noqa: E402
 
-EVIDENCE_DIR = os.path.join(ROOT, "evidence")
+EVIDENCE_DIR = os.environ.get("VERIF_EVIDENCE_DIR") or os.path.join(ROOT, "evidence")  # the override is used only by seeded/matrix.sh (parallel scratch runs)
 REPLAY_DIR = os.path.join(EVIDENCE_DIR, "replays")
 FINDINGS_FILE = os.path.join(ROOT, "known_findings.json")
 
